@@ -232,6 +232,17 @@ func checkC08(c *Ctx) error {
 			env = append(env, "CLICOLOR_FORCE=1", "FORCE_COLOR=1")
 		}
 		env = append(env, fmt.Sprintf("APP_%d=%d", r.Intn(100), r.Intn(100)), "VERIF_ENV_0=x", "GONTAINER_DEBUG=1")
+		// neither are the number of processors Go may use, nor the variables `go generate` exports to the commands it runs
+		switch k % 5 {
+		case 0:
+			env = append(env, "GOMAXPROCS=1")
+		case 1:
+			env = append(env, "GOMAXPROCS=3")
+		case 2:
+			env = append(env, "GOMAXPROCS=7", "GOPACKAGE=main", "GOFILE=gen.go", "GOLINE=3")
+		case 3:
+			env = append(env, "GOPACKAGE=otherpkg", "GOFILE=doc.go", "GOARCH=386", "GOOS=plan9")
+		}
 		// where temporary files would go is not an input either: unset, a directory that does not exist, another file system, a private one
 		switch k % 4 {
 		case 1:
@@ -269,9 +280,18 @@ func checkC08(c *Ctx) error {
 		if i%4 == 0 {
 			g.conf.Meta.Pkg = nil // the documented default (main), whatever else lives in the output directory
 		}
-		// 6-7 files, some matched by two patterns when the group is invalid (duplicate-pattern errors)
-		parts := gen.SplitParts(r, g.conf, 6)
+		// 6-7 files, some matched by two patterns when the group is invalid (duplicate-pattern errors); every eighth group is
+		// spread over 41 files read through one wildcard
+		nf := 6
 		names := []string{"in/a.yaml", "in/b.yaml", "in/c.yaml", "in/d.yaml", "in/e.yaml", "in/f.yaml"}
+		if i%8 == 2 {
+			nf = 41
+			names = nil
+			for k := 0; k < nf; k++ {
+				names = append(names, fmt.Sprintf("in/%c%02d.yaml", 'a'+k%6, k))
+			}
+		}
+		parts := gen.SplitParts(r, g.conf, nf)
 		for k := range parts {
 			g.files = append(g.files, cfg.File{Name: names[k], Content: parts[k].YAML()})
 		}
